@@ -22,6 +22,15 @@
 //
 // The oracle for restore/export is the source shard's own read before the backup (the statement is relative to the
 // "readable points"); a model of the history is kept only as a diagnostic cross-check of that read.
+//
+// The whole check is built with tsdb.DefaultMaxPointsPerBlock = 2 (shim.json, constant replacement in the build
+// overlay): a series with 3 or 4 points in one TSM file has two blocks, so block-level and file-level filtering of an
+// export differ.
+//
+//	layouts      (clause 3 at block level, "layout family" below) every assignment of a slot subset to each of 2 or 3
+//	             series, written into ONE TSM file of a fresh tsm1.Engine, and Engine.Export of every range between
+//	             slot boundaries (incl. the empty ranges between two neighbouring slots); the *.tsm entries of the
+//	             archive are read with the real TSMReader and compared, point by point, with the layout.
 package c38
 
 import (
@@ -40,9 +49,13 @@ import (
 	"testing"
 	"time"
 
+	"github.com/influxdata/influxdb/v2/models"
+	"github.com/influxdata/influxdb/v2/pkg/limiter"
+	"github.com/influxdata/influxdb/v2/tsdb"
 	"github.com/influxdata/influxdb/v2/tsdb/engine/tsm1"
 	"github.com/influxdata/influxdb/v2/tsdb/index/tsi1"
 	"github.com/influxdata/influxdb/v2/v1/services/meta"
+	"github.com/influxdata/influxql"
 	"verif/h/mini"
 	"verif/h/vlib"
 )
@@ -51,6 +64,9 @@ import (
 // domain
 
 const nSlots = 4
+
+// maxSlots bounds the slots of the layout family (display only).
+const maxSlots = 8
 
 func slotT(k int) int64 { return mini.Base + int64(k+1)*1000 }
 
@@ -109,8 +125,9 @@ func (m *model) apply(step int, op string) {
 }
 
 type Case struct {
-	Ops []string `json:"ops"`
-	Sig string   `json:"sig,omitempty"` // replay: report the problems of this class
+	Ops    []string    `json:"ops,omitempty"`
+	Layout *LayoutCase `json:"layout,omitempty"` // layout family: one TSM file, exports of every range
+	Sig    string      `json:"sig,omitempty"`    // replay: report the problems of this class
 }
 
 // ---------------------------------------------------------------------------------------------------------
@@ -193,8 +210,10 @@ func (r *run) retime(k int) error {
 // calls the Compactor directly and does not consult the planner).
 type idlePlanner struct{ tsm1.CompactionPlanner }
 
-func (idlePlanner) Plan(tsm1.TsmGenerations, time.Time) ([]tsm1.CompactionGroup, int64) { return nil, 0 }
-func (idlePlanner) PlanLevel(tsm1.TsmGenerations, int) ([]tsm1.CompactionGroup, int64)   { return nil, 0 }
+func (idlePlanner) Plan(tsm1.TsmGenerations, time.Time) ([]tsm1.CompactionGroup, int64) {
+	return nil, 0
+}
+func (idlePlanner) PlanLevel(tsm1.TsmGenerations, int) ([]tsm1.CompactionGroup, int64) { return nil, 0 }
 func (idlePlanner) PlanOptimize(tsm1.TsmGenerations, time.Time) ([]tsm1.CompactionGroup, int64, int64) {
 	return nil, 0, 0
 }
@@ -325,7 +344,7 @@ func fmtPoints(m map[string][]mini.Pt) string {
 
 func slotOf(t int64) int {
 	d := t - mini.Base
-	if d%1000 == 0 && d >= 1000 && d <= nSlots*1000 {
+	if d%1000 == 0 && d >= 1000 && d <= maxSlots*1000 {
 		return int(d/1000) - 1
 	}
 	return -1
@@ -805,6 +824,677 @@ func (r *run) subsecond(v *verdict, add func(sig, format string, a ...any)) erro
 	return nil
 }
 
+// ---------------------------------------------------------------------------------------------------------
+// layout family (clause 3 at block level): exports that cut through ONE TSM file holding several series with
+// different time extents and several blocks per series.
+//
+// A layout is one slot set per series: series i (tag t = layTag[i]; the TSM keys sort in index order) has a point at
+// slot k iff bit k of Masks[i] is set. All points are written in one batch and snapshotted into ONE TSM file; the
+// build replaces tsdb.DefaultMaxPointsPerBlock by 2 (shim.json), so a series with 3 or 4 points has two blocks. For
+// every range [cut(a), cut(b)], a <= b (a == b: the empty range between two slots), ExportShard is called and every
+// *.tsm entry of the archive is read with the real TSMReader. Reference model = the layout itself.
+//
+// Inclusion rule demanded (from the statement: "an export of a time range contains exactly the points in that range"):
+// point granularity. must-include: every written point with start <= t <= end, once, with its value. must-exclude:
+// every other point. The unchanged code filters at BLOCK granularity (a block is kept whole iff [min,max] of the
+// block intersects the range): an out-of-range point that shares a block with the range is the registered finding
+// export/extra-points/tombstones=false,partial=true and is reported under exactly that signature; an out-of-range
+// point of a block that does not intersect the range, a missing in-range point, a wrong value, or a point that was
+// never written each have their own signature.
+
+var layTag = []string{"a", "b", "c"}
+
+func layValue(ser, k int) float64 { return float64(1000 + 10*k + ser) }
+
+func layKey(ser int) string { return "m,t=" + layTag[ser] + "#!~#v" }
+
+type LayoutCase struct {
+	Slots int   `json:"slots"`
+	Masks []int `json:"masks"`
+}
+
+func (l LayoutCase) String() string {
+	var sb strings.Builder
+	for i, m := range l.Masks {
+		if i > 0 {
+			sb.WriteString(" ")
+		}
+		sb.WriteString(layTag[i] + "@{")
+		first := true
+		for k := 0; k < l.Slots; k++ {
+			if m&(1<<k) != 0 {
+				if !first {
+					sb.WriteString(",")
+				}
+				fmt.Fprintf(&sb, "%d", k)
+				first = false
+			}
+		}
+		sb.WriteString("}")
+	}
+	return sb.String()
+}
+
+// layoutRanges: every [cut(a), cut(b)] with 0 <= a <= b <= n, widest first.
+func layoutRanges(n int, empty bool) [][2]int {
+	var out [][2]int
+	lo := 1
+	if empty {
+		lo = 0
+	}
+	for w := n; w >= lo; w-- {
+		for a := 0; a+w <= n; a++ {
+			out = append(out, [2]int{a, a + w})
+		}
+	}
+	return out
+}
+
+type srcBlock struct {
+	ser      int
+	min, max int64
+}
+
+type tv struct {
+	t int64
+	v float64
+}
+
+// readTSM reads every key of a TSM file with the real reader: key -> points in file order, and key -> block extents.
+func readTSM(path string) (keys []string, pts map[string][]tv, blocks map[string][][2]int64, err error) {
+	fh, err := os.Open(path)
+	if err != nil {
+		return nil, nil, nil, err
+	}
+	r, err := tsm1.NewTSMReader(fh)
+	if err != nil {
+		fh.Close()
+		return nil, nil, nil, err
+	}
+	defer r.Close()
+	pts, blocks = map[string][]tv{}, map[string][][2]int64{}
+	for i := 0; i < r.KeyCount(); i++ {
+		kb, _ := r.KeyAt(i)
+		key := string(kb)
+		keys = append(keys, key)
+		for _, e := range r.Entries(kb) {
+			blocks[key] = append(blocks[key], [2]int64{e.MinTime, e.MaxTime})
+		}
+		vals, err := r.ReadAll(kb)
+		if err != nil {
+			return keys, pts, blocks, fmt.Errorf("ReadAll(%s): %w", key, err)
+		}
+		for _, v := range vals {
+			f, ok := v.Value().(float64)
+			if !ok {
+				f = math.NaN()
+			}
+			pts[key] = append(pts[key], tv{v.UnixNano(), f})
+		}
+	}
+	return keys, pts, blocks, nil
+}
+
+// layBase is what the engines of the layout family share inside one process: a real SeriesFile and tsi1 index (they
+// only register the up to three series keys; Export never consults them). Every layout gets a FRESH tsm1.Engine on
+// its own data and WAL directories, wired the way tsdb.Shard does it.
+type layBase struct {
+	root  string
+	sfile *tsdb.SeriesFile
+	idx   tsdb.Index
+	opt   tsdb.EngineOptions
+	n     int
+}
+
+type layIDSets []*tsdb.SeriesIDSet
+
+func (a layIDSets) ForEach(f func(ids *tsdb.SeriesIDSet)) error {
+	for _, v := range a {
+		f(v)
+	}
+	return nil
+}
+
+var theLayBase *layBase
+
+func layoutBase() (*layBase, error) {
+	if theLayBase != nil {
+		return theLayBase, nil
+	}
+	root := vlib.Scratch("c38-layout-")
+	sfile := tsdb.NewSeriesFile(filepath.Join(root, tsdb.SeriesFileDirectory))
+	if err := sfile.Open(); err != nil {
+		os.RemoveAll(root)
+		return nil, err
+	}
+	opt := tsdb.NewEngineOptions()
+	opt.IndexVersion = tsdb.TSI1IndexName
+	ids := tsdb.NewSeriesIDSet()
+	opt.SeriesIDSets = layIDSets{ids}
+	opt.CompactionLimiter = limiter.NewFixed(4)
+	idx, err := tsdb.NewIndex(1, "db0", filepath.Join(root, "index"), ids, sfile, opt)
+	if err == nil {
+		err = idx.Open()
+	}
+	if err != nil {
+		sfile.Close()
+		os.RemoveAll(root)
+		return nil, err
+	}
+	theLayBase = &layBase{root: root, sfile: sfile, idx: idx, opt: opt}
+	return theLayBase, nil
+}
+
+// closeLayoutBase releases the shared part (end of Run / Replay).
+func closeLayoutBase() {
+	if b := theLayBase; b != nil {
+		b.idx.Close()
+		b.sfile.Close()
+		os.RemoveAll(b.root)
+		theLayBase = nil
+	}
+}
+
+func (b *layBase) newEngine() (string, *tsm1.Engine, error) {
+	b.n++
+	root := filepath.Join(b.root, fmt.Sprintf("e%d", b.n))
+	e := tsm1.NewEngine(1, b.idx, filepath.Join(root, "data"), filepath.Join(root, "wal"), b.sfile, b.opt).(*tsm1.Engine)
+	// what tsdb.Shard does for a store with EngineOptions.CompactionDisabled: the engine never starts its background
+	// snapshot/compaction goroutines (explicit WriteSnapshot calls still work)
+	e.SetEnabled(false)
+	if err := e.Open(context.Background()); err != nil {
+		os.RemoveAll(root)
+		return "", nil, err
+	}
+	return root, e, nil
+}
+
+// write does what tsdb.Shard does before handing points to the engine (field and series registration), then
+// Engine.WritePoints.
+func (b *layBase) write(e *tsm1.Engine, series, field string, pts []tv) error {
+	name, tags := models.ParseKey([]byte(series))
+	var ps []models.Point
+	for _, p := range pts {
+		mp, err := models.NewPoint(name, tags, models.Fields{field: p.v}, time.Unix(0, p.t))
+		if err != nil {
+			return err
+		}
+		ps = append(ps, mp)
+	}
+	f, created, err := e.MeasurementFields([]byte(name)).CreateFieldIfNotExists(field, influxql.Float)
+	if err != nil {
+		return err
+	}
+	if created {
+		ch := tsdb.FieldChanges{&tsdb.FieldChange{FieldCreate: tsdb.FieldCreate{Measurement: []byte(name), Field: f}, ChangeType: tsdb.AddMeasurementField}}
+		if err := e.MeasurementFieldSet().Save(ch); err != nil {
+			return err
+		}
+	}
+	for _, p := range ps {
+		if err := e.CreateSeriesIfNotExists(p.Key(), p.Name(), p.Tags()); err != nil {
+			return err
+		}
+	}
+	return e.WritePoints(context.Background(), ps)
+}
+
+type lverdict struct {
+	probs      []problem
+	outcomes   []string
+	skipped    string
+	nontrivial bool
+	filtered   int // exports in which the file partially overlapped the range
+	maxBlocks  int // blocks of the series with the most blocks
+	fileDesc   string
+}
+
+func relS(t int64) string {
+	if k := slotOf(t); k >= 0 {
+		return fmt.Sprintf("s%d", k)
+	}
+	return fmt.Sprintf("t%+d", t-mini.Base)
+}
+
+func fmtTV(keys []string, m map[string][]tv) string {
+	ks := append([]string(nil), keys...)
+	sort.Strings(ks)
+	var sb strings.Builder
+	sb.WriteByte('{')
+	n := 0
+	for _, k := range ks {
+		if len(m[k]) == 0 {
+			continue
+		}
+		if n > 0 {
+			sb.WriteString("; ")
+		}
+		n++
+		sb.WriteString(k + ":")
+		for _, p := range m[k] {
+			fmt.Fprintf(&sb, " %s=%v", relS(p.t), p.v)
+		}
+	}
+	sb.WriteByte('}')
+	return sb.String()
+}
+
+// executeLayout builds the layout in one TSM file and checks the export of every range.
+func executeLayout(lc LayoutCase, ranges [][2]int) (v lverdict, err error) {
+	if tsdb.DefaultMaxPointsPerBlock != 2 {
+		return v, fmt.Errorf("the small-block build constant is not in effect (tsdb.DefaultMaxPointsPerBlock = %d, want 2: shim.json)", tsdb.DefaultMaxPointsPerBlock)
+	}
+	pts := make([][]tv, len(lc.Masks))
+	var wantKeys []string
+	for s, m := range lc.Masks {
+		if m != 0 {
+			wantKeys = append(wantKeys, layKey(s))
+		}
+		for k := 0; k < lc.Slots; k++ {
+			if m&(1<<k) != 0 {
+				pts[s] = append(pts[s], tv{slotT(k), layValue(s, k)})
+			}
+		}
+	}
+	if len(wantKeys) == 0 {
+		v.skipped = "layout/no-points"
+		return v, nil
+	}
+	base, err := layoutBase()
+	if err != nil {
+		return v, err
+	}
+	root, e, err := base.newEngine()
+	if err != nil {
+		return v, err
+	}
+	defer os.RemoveAll(root)
+	defer e.Close(false)
+	for s := range lc.Masks {
+		if len(pts[s]) == 0 {
+			continue
+		}
+		if err := base.write(e, "m,t="+layTag[s], "v", pts[s]); err != nil {
+			return v, err
+		}
+	}
+	if err := e.WriteSnapshot(); err != nil {
+		return v, err
+	}
+	dir := filepath.Join(root, "data")
+	add := func(sig, format string, a ...any) {
+		v.probs = append(v.probs, problem{sig, strings.ReplaceAll(strings.ReplaceAll(fmt.Sprintf(format, a...), root, "<fixture-dir>"), base.root, "<fixture-base>")})
+	}
+
+	// the source file as it is on disk (observation of the layout, not of the code under test)
+	files, err := scanDir(dir)
+	if err != nil {
+		return v, err
+	}
+	var tsmNames []string
+	for n := range files {
+		if strings.HasSuffix(n, ".tsm") {
+			tsmNames = append(tsmNames, n)
+		}
+	}
+	if len(tsmNames) != 1 || len(files) != 1 {
+		return v, fmt.Errorf("layout %v: expected exactly one TSM file, the shard holds %s", lc, fileList(files))
+	}
+	srcKeys, srcPts, srcBlocks, err := readTSM(filepath.Join(dir, tsmNames[0]))
+	if err != nil {
+		return v, fmt.Errorf("reading the source TSM file: %w", err)
+	}
+	if fmt.Sprint(srcKeys) != fmt.Sprint(wantKeys) {
+		return v, fmt.Errorf("layout %v: source TSM file holds the keys %v, expected %v", lc, srcKeys, wantKeys)
+	}
+	written := map[string]map[int64]float64{}
+	keyPos := map[string]int{}
+	var fmin, fmax int64 = math.MaxInt64, math.MinInt64
+	for i, key := range srcKeys {
+		keyPos[key] = i
+		written[key] = map[int64]float64{}
+		for _, p := range srcPts[key] {
+			written[key][p.t] = p.v
+			fmin, fmax = min(fmin, p.t), max(fmax, p.t)
+		}
+		v.maxBlocks = max(v.maxBlocks, len(srcBlocks[key]))
+	}
+	// cross-check of the on-disk source against the layout (harness sanity)
+	for s, m := range lc.Masks {
+		n := 0
+		for k := 0; k < lc.Slots; k++ {
+			if m&(1<<k) != 0 {
+				n++
+				if got, ok := written[layKey(s)][slotT(k)]; !ok || got != layValue(s, k) {
+					return v, fmt.Errorf("layout %v: source TSM file does not hold %s s%d=%v", lc, layKey(s), k, layValue(s, k))
+				}
+			}
+		}
+		if n != len(written[layKey(s)]) {
+			return v, fmt.Errorf("layout %v: source TSM file holds %d points of %s, expected %d", lc, len(written[layKey(s)]), layKey(s), n)
+		}
+	}
+	{
+		var sb strings.Builder
+		for i, key := range srcKeys {
+			if i > 0 {
+				sb.WriteString("; ")
+			}
+			sb.WriteString(key + " blocks")
+			for _, b := range srcBlocks[key] {
+				fmt.Fprintf(&sb, " [%s,%s]", relS(b[0]), relS(b[1]))
+			}
+		}
+		v.fileDesc = sb.String()
+	}
+	blockOf := func(key string, t int64) (b [2]int64, ok bool) {
+		for _, b := range srcBlocks[key] {
+			if b[0] <= t && t <= b[1] {
+				return b, true
+			}
+		}
+		return b, false
+	}
+	rdir := filepath.Join(root, "exported")
+	if err := os.MkdirAll(rdir, 0o777); err != nil {
+		return v, err
+	}
+	nser := len(srcKeys)
+
+	for ri, ab := range ranges {
+		start, end := cut(ab[0]), cut(ab[1])
+		rng := fmt.Sprintf("range=[slot %d, slot %d]", ab[0], ab[1]-1)
+		if ab[0] == ab[1] {
+			rng = fmt.Sprintf("range=(empty, between slot %d and slot %d)", ab[0]-1, ab[0])
+		}
+		overlaps := func(b [2]int64) bool { return b[0] <= end && b[1] >= start }
+		rel := "partial"
+		switch {
+		case fmin >= start && fmax <= end:
+			rel = "inside"
+		case fmax < start || fmin > end:
+			rel = "outside"
+		}
+		// block structure seen in iteration order (key by key, blocks of a key in time order)
+		nb, nov, keptAfterDropped, dropped := 0, 0, false, false
+		for _, key := range srcKeys {
+			for _, b := range srcBlocks[key] {
+				nb++
+				if overlaps(b) {
+					nov++
+					if dropped {
+						keptAfterDropped = true
+					}
+				} else {
+					dropped = true
+				}
+			}
+		}
+		ov := "some"
+		switch nov {
+		case 0:
+			ov = "none"
+		case nb:
+			ov = "all"
+		}
+		if rel == "partial" {
+			v.filtered++
+			if nser >= 2 {
+				v.nontrivial = true
+			}
+		}
+		feat := fmt.Sprintf("file=%s,blocks-overlapping-range=%s", rel, ov)
+		class := func(res string) {
+			v.outcomes = append(v.outcomes, fmt.Sprintf("layout-export/%s/kept-after-dropped=%v/%s", feat, keptAfterDropped, res))
+		}
+		want := map[string][]tv{}
+		for _, key := range srcKeys {
+			for _, p := range srcPts[key] {
+				if p.t >= start && p.t <= end {
+					want[key] = append(want[key], p)
+				}
+			}
+		}
+		where := fmt.Sprintf("layout %v in one TSM file (%s), export of %s", lc, v.fileDesc, rng)
+
+		var buf bytes.Buffer
+		if err := e.Export(&buf, "db/rp/1", time.Unix(0, start), time.Unix(0, end)); err != nil {
+			add("export-layout/export-error/"+feat, "%s: Engine.Export failed: %v; the export should hold %s", where, err, fmtTV(srcKeys, want))
+			class("export-error")
+			continue
+		}
+		ents, terr := readTar(buf.Bytes())
+		if terr != nil {
+			add("export-layout/archive-unreadable/"+feat, "%s: %v", where, terr)
+			class("archive-unreadable")
+			continue
+		}
+		got := map[string][]tv{}
+		var gotKeys, names []string
+		bad := false
+		tr := tar.NewReader(bytes.NewReader(buf.Bytes()))
+		ne := 0
+		for {
+			h, err := tr.Next()
+			if err != nil {
+				break
+			}
+			body, _ := io.ReadAll(tr)
+			base := filepath.Base(filepath.FromSlash(h.Name))
+			if h.Typeflag == tar.TypeDir || !strings.HasSuffix(base, ".tsm") {
+				continue
+			}
+			names = append(names, fmt.Sprintf("%s(%dB)", base, len(body)))
+			ne++
+			p := filepath.Join(rdir, fmt.Sprintf("r%d-e%d.tsm", ri, ne))
+			if err := os.WriteFile(p, body, 0o666); err != nil {
+				return v, err
+			}
+			ks, ps, _, rerr := readTSM(p)
+			os.Remove(p)
+			if rerr != nil {
+				add("export-layout/exported-file-unreadable/"+feat, "%s: archive entry %s cannot be read as a TSM file: %v", where, base, rerr)
+				bad = true
+				break
+			}
+			for _, k := range ks {
+				if _, ok := got[k]; !ok {
+					gotKeys = append(gotKeys, k)
+				}
+				got[k] = append(got[k], ps[k]...)
+			}
+		}
+		_ = ents
+		if bad {
+			class("exported-file-unreadable")
+			continue
+		}
+		allKeys := append([]string(nil), srcKeys...)
+		for _, k := range gotKeys {
+			if _, ok := written[k]; !ok {
+				allKeys = append(allKeys, k)
+			}
+		}
+		tail := fmt.Sprintf("the export should hold %s, the TSM files of the archive %v hold %s", fmtTV(allKeys, want), names, fmtTV(allKeys, got))
+		sigs := map[string]string{}
+		note := func(sig, what string) {
+			if _, ok := sigs[sig]; !ok {
+				sigs[sig] = what
+			}
+		}
+		// must-include: every in-range point, once, with its value
+		for _, key := range srcKeys {
+			cnt := map[int64]int{}
+			val := map[int64]float64{}
+			for _, p := range got[key] {
+				cnt[p.t]++
+				val[p.t] = p.v
+			}
+			for _, p := range want[key] {
+				pos := "first"
+				if keyPos[key] > 0 {
+					pos = "later"
+				}
+				blk := "straddles-range"
+				if b, ok := blockOf(key, p.t); ok && b[0] >= start && b[1] <= end {
+					blk = "inside-range"
+				}
+				switch {
+				case cnt[p.t] == 0:
+					note(fmt.Sprintf("export-layout/missing-points/file=%s,key=%s,block=%s", rel, pos, blk), fmt.Sprintf("%s %s=%v is inside the range but not in the export", key, relS(p.t), p.v))
+				case cnt[p.t] > 1:
+					note("export-layout/duplicated-points/file="+rel, fmt.Sprintf("%s %s is %d times in the export", key, relS(p.t), cnt[p.t]))
+				case val[p.t] != p.v:
+					note("export-layout/wrong-values/file="+rel, fmt.Sprintf("%s %s=%v is exported as %v", key, relS(p.t), p.v, val[p.t]))
+				}
+			}
+		}
+		// must-exclude: everything else
+		granular := false
+		for _, key := range gotKeys {
+			for _, p := range got[key] {
+				wv, ok := written[key][p.t]
+				switch {
+				case !ok:
+					note("export-layout/foreign-points/file="+rel, fmt.Sprintf("%s %s=%v is in the export but was never written", key, relS(p.t), p.v))
+				case p.t >= start && p.t <= end:
+					// judged above
+				case wv != p.v:
+					note("export-layout/wrong-values/file="+rel, fmt.Sprintf("%s %s=%v is exported as %v", key, relS(p.t), wv, p.v))
+				default:
+					if b, ok := blockOf(key, p.t); ok && overlaps(b) {
+						// block granularity of the unchanged code: the registered finding of the history family
+						granular = true
+						note("export/extra-points/tombstones=false,partial=true", fmt.Sprintf("%s %s=%v is outside the range (its block [%s,%s] intersects the range)", key, relS(p.t), p.v, relS(b[0]), relS(b[1])))
+					} else {
+						note("export-layout/extra-points/block-outside-range,file="+rel, fmt.Sprintf("%s %s=%v is outside the range and so is its whole block", key, relS(p.t), p.v))
+					}
+				}
+			}
+		}
+		var ss []string
+		for s := range sigs {
+			ss = append(ss, s)
+		}
+		sort.Strings(ss)
+		for _, s := range ss {
+			add(s, "%s: %s; %s", where, sigs[s], tail)
+		}
+		switch {
+		case len(ss) == 0:
+			class("exact")
+		case len(ss) == 1 && granular:
+			class("block-granular-extra-points")
+		default:
+			class("other-difference")
+		}
+	}
+	return v, nil
+}
+
+// layouts visits every assignment of a slot subset to each of nSer series, simplest (fewest points) first within the
+// lexicographic order of the masks.
+func layouts(nSer, nSlots int, visit func(LayoutCase) bool) bool {
+	masks := make([]int, nSer)
+	var rec func(i int) bool
+	rec = func(i int) bool {
+		if i == nSer {
+			return visit(LayoutCase{Slots: nSlots, Masks: append([]int(nil), masks...)})
+		}
+		for m := 0; m < 1<<nSlots; m++ {
+			masks[i] = m
+			if !rec(i + 1) {
+				return false
+			}
+		}
+		return true
+	}
+	return rec(0)
+}
+
+type layoutFamily struct{ nSer, nSlots int }
+
+func layoutFamilies(thorough bool) []layoutFamily {
+	if thorough {
+		return []layoutFamily{{2, 4}, {3, 4}, {2, 5}}
+	}
+	return []layoutFamily{{2, 4}, {3, 3}}
+}
+
+func replayLayout(cs Case) (bool, string) {
+	lc := *cs.Layout
+	var sb strings.Builder
+	fmt.Fprintf(&sb, "layout (one TSM file, tsdb.DefaultMaxPointsPerBlock = 2): %v\n", lc)
+	if lc.Slots < 1 || lc.Slots > maxSlots || len(lc.Masks) < 1 || len(lc.Masks) > len(layTag) {
+		fmt.Fprintf(&sb, "malformed layout case\n")
+		return false, sb.String()
+	}
+	var v lverdict
+	var err error
+	defer closeLayoutBase()
+	p, d := vlib.Guard(func() { v, err = executeLayout(lc, layoutRanges(lc.Slots, true)) })
+	if p {
+		fmt.Fprintf(&sb, "PANIC: %s\n", d)
+		return true, sb.String()
+	}
+	if err != nil {
+		fmt.Fprintf(&sb, "fixture error: %v\n", err)
+		return false, sb.String()
+	}
+	fmt.Fprintf(&sb, "source file: %s\n", v.fileDesc)
+	n := 0
+	for _, pr := range v.probs {
+		if cs.Sig == "" || pr.sig == cs.Sig {
+			fmt.Fprintf(&sb, "VIOLATED %s: %s\n", pr.sig, pr.detail)
+			n++
+		}
+	}
+	return n > 0, sb.String()
+}
+
+var layoutSamples int
+
+func runLayout(c *vlib.Ctx, lc LayoutCase, ranges [][2]int) {
+	var v lverdict
+	var err error
+	p, d := vlib.Guard(func() { v, err = executeLayout(lc, ranges) })
+	c.Eval(1)
+	switch {
+	case p:
+		fr := d[strings.LastIndex(d, "@ ")+2:]
+		c.Violation("panic/"+fr, fmt.Sprintf("layout %v: %s", lc, d), Case{Layout: &lc})
+		c.Outcome("panic")
+		return
+	case err != nil:
+		c.HarnessError(fmt.Sprintf("layout %v: %v", lc, err))
+		return
+	case v.skipped != "":
+		c.Outcome(v.skipped)
+		return
+	}
+	if v.nontrivial {
+		c.NontrivialN(1)
+	}
+	c.Extra("layout_exports", int64(len(ranges)))
+	c.Extra("layout_exports_that_filter_a_partially_overlapping_file", int64(v.filtered))
+	c.Outcome(fmt.Sprintf("layout/max-blocks-per-series=%d", v.maxBlocks))
+	seen := map[string]bool{}
+	for _, pr := range v.probs {
+		if seen[pr.sig] {
+			continue
+		}
+		seen[pr.sig] = true
+		c.Violation(pr.sig, pr.detail, Case{Layout: &lc, Sig: pr.sig})
+	}
+	for _, o := range v.outcomes {
+		c.Outcome(o)
+	}
+	if v.nontrivial && v.maxBlocks >= 2 && len(lc.Masks) >= 2 && lc.Masks[0] != lc.Masks[1] && layoutSamples < 2 && c.WantSample() {
+		layoutSamples++ // leave room for samples of the history family
+		c.Sample(map[string]any{"layout": lc.String(), "source_file": v.fileDesc, "exports": len(ranges), "exports_filtering_a_partially_overlapping_file": v.filtered, "problems": len(v.probs)})
+	}
+}
+
 func npoints(m map[string][]mini.Pt) int {
 	n := 0
 	for _, p := range m {
@@ -874,20 +1564,25 @@ func hasWrite(h []string) bool {
 func TestCheck(t *testing.T) {
 	vlib.Main(t, &vlib.Check{
 		ID: "C38", Level: "exploration",
-		Rule: "every history of length 1..3 (quick: 399 histories) resp. 1..4 plus every history of length 5 over {wL,wH,dM,s,c} that starts with a write (thorough: 2800 + 1250 histories) over the 7 operations {wL: write A@slots0,1 + B@slot0; wH: write A@slots2,3 + B@slot3; wA: (over)write A@slots0-3; dM: delete [slot1,slot2] of all series; dB: delete series B; s: snapshot cache->TSM; c: snapshot + full compaction} " +
-			"on a fresh bucket (series m,t=a and m,t=b, float field v, 4 time slots in one shard, value = 100*step+10*slot+series so every write is distinguishable); per history: (1) BackupShard(since=0) -> RestoreShard into an empty shard, reads compared; (2) BackupShard(since) for since = T(j), T(j)+30min, j=0..n+1 with file mtimes set by os.Chtimes to the step of their last content change, archive must contain every later-changed *.tsm/*.tombstone file byte-identically; (2b, sub-second placements) every tracked file F in turn gets the mtime T = T(step of F) + d for d in {0, 1ns, 500ms, 999999999ns} (os.Chtimes with nanosecond precision, read back with os.Stat; the other files keep their whole-hour step time) and BackupShard(since) runs for since in {T-1s, T-1ms, T-1ns, T, T+1ns, T+1s} (24 backups per file): the archive must contain a tracked file, byte-identically, iff its mtime is after since; (3) ExportShard for every one of the 10 ranges between slot boundaries (quick: the 6 ranges all, first half, second half, middle, first slot, last slot) -> ImportShard into an empty shard, reads compared with the source points in the range. " +
+		Rule: "(A, layout family, visited first) every layout = one slot subset per series for S series x N slots (quick: 2 series x 4 slots = 256 layouts and 3 series x 3 slots = 512 layouts; thorough: 2x4, 3 series x 4 slots = 4096 layouts and 2 series x 5 slots = 1024 layouts; series m,t=a < m,t=b < m,t=c in TSM key order, float field v, value = 1000+10*slot+series) is written in one batch into ONE TSM file of a fresh tsm1.Engine (build constant tsdb.DefaultMaxPointsPerBlock = 2: a series with 3..5 points has 2..3 blocks, so series of one file have different extents AND several blocks, in every key order: late-only series before early-only series and vice versa); per layout Engine.Export(start,end) runs for EVERY pair of slot boundaries start <= end (N=4: 10 non-empty ranges + 5 empty ranges between neighbouring slots; N=3: 10; N=5: 21), i.e. ranges covering the file, cutting through it on the left/right/both sides, lying in a gap of the file and lying outside it; every *.tsm entry of the tar archive is read with the real TSMReader and compared with the layout at POINT granularity: every written point with start <= t <= end must be present once with its value (missing-points / duplicated-points / wrong-values), every other point must be absent (extra point whose block intersects the range = the registered block-granularity finding export/extra-points/tombstones=false,partial=true; extra point of a block outside the range, or a point never written, have their own signatures), Export must not fail. non-trivial layouts = at least 2 series with points and at least one range that only partially overlaps the file (the file is rewritten block by block). " +
+			"(B, history family) every history of length 1..3 (quick: 399 histories) resp. 1..4 plus every history of length 5 over {wL,wH,dM,s,c} that starts with a write (thorough: 2800 + 1250 histories) over the 7 operations {wL: write A@slots0,1 + B@slot0; wH: write A@slots2,3 + B@slot3; wA: (over)write A@slots0-3; dM: delete [slot1,slot2] of all series; dB: delete series B; s: snapshot cache->TSM; c: snapshot + full compaction} " +
+			"on a fresh bucket (series m,t=a and m,t=b, float field v, 4 time slots in one shard, value = 100*step+10*slot+series so every write is distinguishable; blocks of at most 2 points, so wA gives series A two blocks per file); per history: (1) BackupShard(since=0) -> RestoreShard into an empty shard, reads compared; (2) BackupShard(since) for since = T(j), T(j)+30min, j=0..n+1 with file mtimes set by os.Chtimes to the step of their last content change, archive must contain every later-changed *.tsm/*.tombstone file byte-identically; (2b, sub-second placements) every tracked file F in turn gets the mtime T = T(step of F) + d for d in {0, 1ns, 500ms, 999999999ns} (os.Chtimes with nanosecond precision, read back with os.Stat; the other files keep their whole-hour step time) and BackupShard(since) runs for since in {T-1s, T-1ms, T-1ns, T, T+1ns, T+1s} (24 backups per file): the archive must contain a tracked file, byte-identically, iff its mtime is after since; (3) ExportShard for every one of the 10 ranges between slot boundaries (quick: the 6 ranges all, first half, second half, middle, first slot, last slot) -> ImportShard into an empty shard, reads compared with the source points in the range. " +
 			"non-trivial = histories that contain a write (a shard exists); distinct by construction.",
 		Assumptions: []string{
 			"the oracle of restore/export is the source shard's own ReadFilter before the backup (statement: 'the same readable points and series'); series without points are not compared; a model of the history is only a diagnostic cross-check (evidence counter source_reads_differing_from_history_model)",
 			"'file changed after t' is decided by content hashes between history steps; mtimes are set explicitly (2001-01-01 + step hours), so the mtime comparison of the code cannot make the oracle flaky; in family (2) only 'archive is a superset of the required files' is demanded",
-				"family (2b) models 'the file changed at T' by setting its mtime to T with nanosecond precision (tmpfs keeps nanosecond mtimes; the value is read back and a placement that the file system rounds is not judged: outcome class file-system-rounds-mtimes). 'changed after since' is mtime > since at full precision, also when both fall into the same wall-clock second. The converse direction (a tracked file with mtime <= since is NOT in the incremental archive) is what makes the backup incremental; it has its own signature subsecond/unchanged-file-archived",
+			"family (2b) models 'the file changed at T' by setting its mtime to T with nanosecond precision (tmpfs keeps nanosecond mtimes; the value is read back and a placement that the file system rounds is not judged: outcome class file-system-rounds-mtimes). 'changed after since' is mtime > since at full precision, also when both fall into the same wall-clock second. The converse direction (a tracked file with mtime <= since is NOT in the incremental archive) is what makes the backup incremental; it has its own signature subsecond/unchanged-file-archived",
 			"export range bounds lie between the time slots, so the statement's silence on inclusive/exclusive range ends does not matter",
+			"inclusion rule of an export, taken from the statement ('contains exactly the points in that range'): POINT granularity - a point is required iff start <= t <= end and forbidden otherwise; nothing is demanded about blocks. The unchanged code keeps every block whose [min,max] intersects the range whole; the out-of-range points this drags in are reported under the signature of the already registered finding (export/extra-points/tombstones=false,partial=true) in both families, every other difference has its own signature. An Export call that returns an error for a range is a violation (export-error), as in the history family",
+			"the build replaces the constant tsdb.DefaultMaxPointsPerBlock (1000) by 2 (shim.json 'consts', the same device as C03) so that several blocks per series and file are reachable with <= 5 points; the layout family refuses to run (harness error) if the constant is not 2. Block extents used to CLASSIFY extra points are read from the source TSM file's index with the real TSMReader (observation of the layout), the expected content comes from the layout alone",
+			"the layout family calls tsm1.Engine.Export directly (tsdb.Store.ExportShard -> Shard.Export is a pass-through that the history family covers) on a fresh engine per layout; the engines of one process share one real SeriesFile + tsi1 index (only the <= 3 series keys are registered there, Export never consults them) and are opened with SetEnabled(false) as tsdb.Shard does for a store with compactions disabled, so the file set is exactly the one snapshot file the harness wrote (checked: exactly one *.tsm, its keys and points equal the layout, else harness error)",
+			"layout family: one TSM file per layout, no tombstones, no cache contents at export time, float values only; multi-file shards, tombstones and compacted files are the history family's part (2 series)",
 			"tsi1.DefaultPartitionN is set to 1 (the INFLUXDB_EXP_TSI_PARTITIONS knob) to make the ~12 shard creations per history affordable",
 			"ImportShard schedules a full compaction (background) on the import target; the target is read once right after the import and discarded",
 			"the source shard's compaction PLANNER is replaced by one that never plans (Engine.CompactionPlan is an exported injection point): a delete starts the shard's background compaction goroutine although the fixture disabled compactions, and it would compact tombstoned files one wall-clock second later, in the middle of the checks. Compactions are the explicit 'c' operations",
 			"if the shard directory nevertheless changes while an incremental backup runs, that backup is not judged (outcome class directory-changed-during-backup)",
 		},
-		QuickBudgetS: 70, ThoroughBudgetS: 780,
+		QuickBudgetS: 80, ThoroughBudgetS: 840,
 		Run: func(c *vlib.Ctx) {
 			defer func(old uint64) { tsi1.DefaultPartitionN = old }(tsi1.DefaultPartitionN)
 			tsi1.DefaultPartitionN = 1
@@ -906,6 +1601,26 @@ func TestCheck(t *testing.T) {
 				exports = [][2]int{{0, 4}, {0, 2}, {2, 4}, {1, 3}, {0, 1}, {3, 4}}
 			}
 			var idx int64
+			defer closeLayoutBase()
+			// layout family first (simplest: one write, one file)
+			for _, lf := range layoutFamilies(c.Thorough()) {
+				rs := layoutRanges(lf.nSlots, true)
+				complete := layouts(lf.nSer, lf.nSlots, func(lc LayoutCase) bool {
+					idx++
+					if !c.Mine(idx) {
+						return true
+					}
+					if c.Expired() {
+						return false
+					}
+					runLayout(c, lc, rs)
+					return true
+				})
+				if !complete {
+					c.Cap(fmt.Sprintf("wall budget: a shard stopped inside the layout family %d series x %d slots (visited in lexicographic order of the slot sets)", lf.nSer, lf.nSlots))
+					return
+				}
+			}
 			for _, fm := range fams {
 				complete := histories(fm.d, fm.alphabet, fm.first, func(h []string) bool {
 					idx++
@@ -931,6 +1646,9 @@ func TestCheck(t *testing.T) {
 			}
 			defer func(old uint64) { tsi1.DefaultPartitionN = old }(tsi1.DefaultPartitionN)
 			tsi1.DefaultPartitionN = 1
+			if cs.Layout != nil {
+				return replayLayout(cs)
+			}
 			var v verdict
 			var err error
 			p, d := vlib.Guard(func() { v, err = execute(c, cs.Ops, allRanges()) })
